@@ -340,7 +340,7 @@ def cookie_shapes():
 
 
 def jobs(tier, seed):
-    n, shards = (6400, 8) if tier == "quick" else (96000, 16)
+    n, shards = (6400, 8) if tier == "quick" else (384000, 16)
     out = [{"name": f"prefix2-{i}", "kind": "prefix2", "lo": i * 32, "hi": (i + 1) * 32} for i in range(8)]
     out.append({"name": "status-shapes", "kind": "status"})
     out.append({"name": "cookie-shapes", "kind": "cookies"})
